@@ -671,7 +671,8 @@ class CondSelect(Statement):
             for branch in code_branches + code_default:
                 return_paths.extend(branch.return_paths())
 
-        super().__init__(returns, return_paths)
+        # without default branch there is a path that does not return
+        super().__init__(returns and default is not None, return_paths)
 
     def dump(self) -> IndentBlock:
         if self._default is not None:
